@@ -7,6 +7,7 @@ Abstraction: `Ring.content r` (oldest first); spec = bounded FIFO `BQ` on `List 
 -/
 import Golib.Proof.C10Refine
 import Golib.Proof.C10SyncRefine
+import Golib.Proof.C10Large
 
 namespace Golib.C10
 
@@ -100,6 +101,40 @@ example :
     ((⟨[3, 4, 5], 4⟩ : BQ).run [.pushx 6, .pushx 7, .pop, .recap 4, .isFull]).2
       = ["ok", "ok", "3 true", "true", "true"] := by
   constructor <;> decide
+
+/-- Large stream: histories made of BULK operations (`fill n v` = n × `Push`, `drain n` =
+n × `Pop`, `xfill n v` = n × `PushWithExpand`, defined on the model as plain iterations)
+and single operations, from any state satisfying the invariant (every capacity, every
+rotation): the iterated model never panics and prints exactly what the linear-time
+spec-level run `BQ.lrun` prints — which is what the oracle answers for `ringL` cases
+(capacities up to several thousand, rings grown across 1024/4096). -/
+theorem c10_ring_large_refines (r : Ring) (hi : r.Inv) (ops : List LOp) :
+    ∃ r', r.lrun ops = some (r', (r.abs.lrun ops).2) ∧ r'.Inv ∧ r'.abs = (r.abs.lrun ops).1 := by
+  induction ops generalizing r with
+  | nil => exact ⟨r, rfl, hi, rfl⟩
+  | cons op ops ih =>
+    obtain ⟨r1, h1, hi1, ha1⟩ := lstep_refines r hi op
+    obtain ⟨r2, h2, hi2, ha2⟩ := ih r1 hi1
+    refine ⟨r2, ?_, hi2, ?_⟩
+    · simp only [Ring.lrun, h1, h2, BQ.lrun, ha1]
+    · simp only [BQ.lrun, ha2, ha1]
+
+/-- ... in particular from `New(cap)`: the `ringL` driver's answers are the model's. -/
+theorem c10_ring_large_new (cap : Int) (h : 0 < cap) (ops : List LOp) :
+    ∃ r r', Ring.init? cap = some r ∧ r.lrun ops = some (r', ((⟨[], cap⟩ : BQ).lrun ops).2) := by
+  obtain ⟨r, hr, hi, hc, hcap⟩ := c10_ring_init cap h
+  obtain ⟨r', h1, _, _⟩ := c10_ring_large_refines r hi ops
+  have : r.abs = ⟨[], cap⟩ := by simp only [Ring.abs, hc, hcap]
+  rw [this] at h1
+  exact ⟨r, r', hr, h1⟩
+
+/-- Non-vacuity: fill, rotate, refill, expand twice past full, drain: iterated model and
+closed forms agree on a concrete wrapped history. -/
+example :
+    ((Ring.init? 4).bind fun r => (r.lrun [.fill 4 1, .drain 3, .fill 9 5, .xfill 3 20, .one .cap, .drain 9]).map (·.2))
+      = some ["4", "3 6 " ++ toString ((((0*31+1+7)*31+2+7)*31+3+7) % 1000000007), "3", "ok", "8",
+              (((⟨[], 4⟩ : BQ).lrun [.fill 4 1, .drain 3, .fill 9 5, .xfill 3 20, .one .cap, .drain 9]).2).getLast!] := by
+  decide +kernel
 
 /-- The zero value `var r Ring[T]` (never `Init`ialised; no capacity was requested, so it
 is outside the property) is NOT an empty ring of capacity 0: `head = tail = 0` makes
